@@ -100,6 +100,19 @@ MUTATIONS = [
     ("tlexport/main.py", "        if len(packet_payload) < 6:", "        if len(packet_payload) < 5:", "handle_quic_packet: 5-byte long header read"),
     ("tlexport/output_builder.py", "        self.default_port = 8080", "        self.default_port = 8081", "OutputBuilder: fallback port"),
     ("tlexport/quic/quic_output_builder.py", "        if keep_original_ports is False:", "        if keep_original_ports is True:", "QUICOutputbuilder: flag inverted"),
+    # group QuicTls: quic_tls_parser.py
+    ("tlexport/quic/quic_tls_parser.py", "            if p_type == 0x2ab2:", "            if p_type == 0x2ab3:", "get_quic_transport_parameters: grease_quic_bit under the wrong id"),
+    ("tlexport/quic/quic_tls_parser.py", "            extension_body = extension_body[index + parameter_length:]", "            extension_body = extension_body[index + parameter_length + 1:]", "get_quic_transport_parameters: a byte skipped after each parameter"),
+    ("tlexport/quic/quic_tls_parser.py", "            if len(record) < 4 + extension_length:\n                break", "            if len(record) < 2 + extension_length:\n                break", "get_extensions: incomplete extension collected"),
+    ("tlexport/quic/quic_tls_parser.py", "                    if e_length != 2:\n                        continue", "                    if e_length != 3:\n                        continue", "get_extensions: supported_versions of 3 bytes"),
+    ("tlexport/quic/quic_tls_parser.py", "                    self.alpn = e_body[3:3 + alpn_length]", "                    self.alpn = e_body[2:3 + alpn_length]", "get_extensions: ALPN includes its length byte"),
+    ("tlexport/quic/quic_tls_parser.py", "        if len(record[2:]) != int.from_bytes(record[:2], 'big', signed=False):\n            return", "        if len(record[2:]) < int.from_bytes(record[:2], 'big', signed=False):\n            return", "get_extensions: trailing bytes accepted"),
+    ("tlexport/quic/quic_tls_parser.py", "        self.client_random = record[2:34]", "        self.client_random = record[2:33]", "handle_client_hello: 31-byte client random"),
+    ("tlexport/quic/quic_tls_parser.py", "        self.ciphersuite = _ciphersuites[0:2]  # For early data", "        self.ciphersuite = _ciphersuites[2:4]  # For early data", "handle_client_hello: second offered suite taken"),
+    ("tlexport/quic/quic_tls_parser.py", "        index += 1 + compression_methods_length", "        index += compression_methods_length", "handle_client_hello: compression length byte not skipped"),
+    ("tlexport/quic/quic_tls_parser.py", "        record = record[39 + session_id_length:]", "        record = record[38 + session_id_length:]", "handle_server_hello: cipher suite read one byte early"),
+    ("tlexport/quic/quic_tls_parser.py", "        self.get_extensions(record[4:])", "        self.get_extensions(record[3:])", "handle_encrypted_extensions: message header not stripped"),
+    ("tlexport/quic/quic_tls_parser.py", "            case 8:\n                self.handle_encrypted_extensions(record)", "            case 11:\n                self.handle_encrypted_extensions(record)", "handle_record: EncryptedExtensions under the Certificate type"),
     # group Decrypt: decryptor.py
     ("tlexport/decryptor.py", "    b_padded = bytes(diff) + b", "    b_padded = b + bytes(diff)", "Dec.byte_xor: zero padding at the wrong end"),
     ("tlexport/decryptor.py", "        xor_out.append(a[i] ^ b_padded[i])", "        xor_out.append(a[i] | b_padded[i])", "Dec.byte_xor: or instead of xor"),
@@ -215,6 +228,7 @@ REWRITES = [
     ("tlexport/output_builder.py", [("        record_len = len(decrypted)\n        packet_count = len(ts)\n", "        packet_count = len(ts)\n        record_len = len(decrypted)\n", 0)], "build_server_packet: two independent statements swapped"),
     ("tlexport/decryptor.py", [("    for i in range(len(a)):", "    for i in range(0, len(a)):")], "Dec.byte_xor: explicit range start"),
     ("tlexport/decryptor.py", [("            self.server_key = self.server_application_key\n            self.server_iv = self.server_application_iv\n", "            self.server_iv = self.server_application_iv\n            self.server_key = self.server_application_key\n")], "update_keys: two independent statements swapped"),
+    ("tlexport/quic/quic_tls_parser.py", [("        if len(record) < 6:\n            return\n", "        if 6 > len(record):\n            return\n")], "handle_encrypted_extensions: comparison turned around"),
     ("tlexport/session.py", [("                metadata = []\n                record_len = packet_data[index + 3: index + 5]", "                record_len = packet_data[index + 3: index + 5]\n                metadata = []", 0)],
      "extract_server_frame: two independent statements swapped"),
     ("tlexport/session.py", [("        if self.server_cipher_change and isserver and self.can_decrypt:", "        if isserver and self.server_cipher_change and self.can_decrypt:")], "handle_handshake_finished: operands of `and` reordered"),
@@ -252,6 +266,8 @@ def group_of(what):
     if fn in ("Dec.byte_xor", "get_cipher_type", "update_keys", "decrypt_tls13_aead", "decrypt_tls13_stream_cipher", "decrypt_tls12_aead",
               "decrypt_tls12_chacha20", "Decryptor.decrypt"):
         return ["Decrypt"]
+    if fn in ("get_quic_transport_parameters", "get_extensions", "handle_client_hello", "handle_server_hello", "handle_encrypted_extensions", "handle_record"):
+        return ["QuicTls"]
     if fn in ("extract_server_frame", "extract_client_frame"):
         return ["Reasm2"]
     if fn in ("extract_server_buf", "extract_client_buf") and "next_seq" in what:
